@@ -30,6 +30,8 @@ async fn one(ctx: &mut Ctx, rng: &mut Rng, sock: &str, script: Vec<String>, len:
     let mut obs: Vec<String> = Vec::new();
     let mut script = script.into_iter();
     let mut dead = false;
+    let mut now: u64 = 0;                 // virtual seconds
+    let mut last_done: Option<u64> = None; // when the last getinfo reply (result or error) was delivered
     node::quiesce(&node, QUIET).await;
     let observe = |node: &Node, h: Option<u32>, dead: bool| {
         node::reap(node);
@@ -48,7 +50,7 @@ async fn one(ctx: &mut Ctx, rng: &mut Rng, sock: &str, script: Vec<String>, len:
         }
         let act = match script.next() { Some(a) => a, None => rng.pick(&cands).clone() };
         if let Some(v) = act.strip_prefix("n") { node.lock().unwrap().height = v.parse().unwrap(); }
-        else if let Some(v) = act.strip_prefix("a") { tokio::time::advance(Duration::from_secs(v.parse().unwrap())).await; }
+        else if let Some(v) = act.strip_prefix("a") { let dt: u64 = v.parse().unwrap(); tokio::time::advance(Duration::from_secs(dt)).await; now += dt; }
         else if let Some(v) = act.strip_prefix("b") {
             let h: u32 = v.parse().unwrap();
             if let Some(w) = watcher.lock().await.clone() { w.new_block(&BlockAdded { height: h }).await; told.push(h); }
@@ -64,6 +66,7 @@ async fn one(ctx: &mut Ctx, rng: &mut Rng, sock: &str, script: Vec<String>, len:
                 let mut p = n.parked.remove(i);
                 if let Some(Ok(v)) = &p.served { told.push(v["blockheight"].as_u64().unwrap() as u32); }
                 if let (Some(tx), Some(r)) = (p.tx.take(), p.served.take()) { let _ = tx.send(r); }
+                last_done = Some(now);
             }
         }
         node::quiesce(&node, QUIET).await;
@@ -71,6 +74,12 @@ async fn one(ctx: &mut Ctx, rng: &mut Rng, sock: &str, script: Vec<String>, len:
         let h = match watcher.lock().await.clone() { Some(w) => Some(w.current_height().await), None => None };
         acts.push(act);
         obs.push(observe(&node, h, dead));
+        // oracle (catch-up): the node is polled again at the latest one interval after the previous poll ended,
+        // whatever that poll's outcome was
+        if h.is_some() && !dead {
+            let outstanding = { let n = node.lock().unwrap(); n.parked.iter().filter(|p| p.method == "getinfo").count() };
+            if outstanding == 0 { if let Some(t) = last_done { if now >= t + 61 { ctx.violation("C20", "poll-missing", &format!("no getinfo poll {} s after the previous one ended (interval 60 s) REPLAY[hw {} {}]", now - t, h0, acts.join(" "))); last_done = None; } } }
+        }
         // oracle: the register is the maximum of everything told
         if let Some(h) = h {
             let want = told.iter().copied().max().unwrap_or(0);
